@@ -82,7 +82,15 @@ RULE = ("T case lines carry, besides the seed, (field 8) whether the template li
         "coordinates have 0, 1, 2 and 3 leading zero bytes (x, y or both; scalars found off line), in a seed-rotated order: each key issues a "
         "self-signed CA certificate, a certificate for the next key, a request and a CRL, and after every issuance ALL objects so far are "
         "verified again under their issuer (must hold), after each key's last object also under every other key used so far (must fail), and public keys must parse back "
-        "to the coordinates (implementation-only: the runner prints SKIP). Every case is non-trivial; distinct = distinct case text")
+        "to the coordinates (implementation-only: the runner prints SKIP). P cases (40 quick / 400 thorough): a signer LOADED through "
+        "ParseSm2PrivateKey / ParsePKCS8UnecryptedPrivateKey / ReadPrivateKeyFromPem from a hand-built key file whose scalar OCTET STRING "
+        "has 30, 31 (leading zero octets stripped), 32, 33 or 34 octets (zero padding, as signed-integer encoders write), with or without the "
+        "optional public key: the loaded key must be (d, [d]G) with [d]G computed by the check module's own curve arithmetic, the certificate "
+        "it issues must carry [d]G and certificate, request and CRL must verify under [d]G. Q cases (36 quick / 360 thorough): a CA whose "
+        "subject encoding is given (attributes through ExtraNames, a second country, an unknown attribute type, CN-O-C order, UTF8String / "
+        "IA5String / TeletexString values, multi-valued, plain) goes through ParseCertificate (or is an in-memory parent with RawSubject) and "
+        "issues a certificate: the issuer field read from the child's DER must equal the parent's subject byte for byte and Verify must "
+        "build child -> parent (both implementation-only). Every case is non-trivial; distinct = distinct case text")
 
 
 ALGO_ERRORS = ("x509:_requested_SignatureAlgorithm_does_not_match_private_key_type", "x509:_unknown_SignatureAlgorithm",
@@ -91,6 +99,8 @@ ALGO_ERRORS = ("x509:_requested_SignatureAlgorithm_does_not_match_private_key_ty
 
 
 def _same(f, io, mo):
+    if f[0] in ("P", "Q"):
+        return True                  # no model side (the runner prints SKIP): judged by the predicate's own EC / DER code
     if f[0] == "Y":
         return True                  # histories have no model side (the runner prints SKIP)
     if f[0] == "E":
@@ -319,7 +329,7 @@ def _insecure(f):
 
 
 def nontrivial(f):
-    return (len(f) >= 7 and f[0] == "T") or f[0] == "E" or (f[0] == "Y" and len(f) >= 3 and f[2].count(",") >= 2)
+    return (len(f) >= 7 and f[0] == "T") or f[0] == "E" or (f[0] == "P" and len(f) == 6) or (f[0] == "Q" and len(f) == 5) or (f[0] == "Y" and len(f) >= 3 and f[2].count(",") >= 2)
 
 
 KNOWN_EKU_OIDS = {"2.5.29.37.0", "1.3.6.1.4.1.311.10.3.3", "2.16.840.1.113730.4.1"} | {"1.3.6.1.5.5.7.3.%d" % i for i in range(1, 10)}
@@ -385,6 +395,96 @@ def _predicate_E(f, io):
     return True, ""
 
 
+SM2_N = 0xFFFFFFFEFFFFFFFFFFFFFFFFFFFFFFFF7203DF6B21C6052B53BBF40939D54123
+SM2_GX = 0x32C4AE2C1F1981195F9904466A39C9948FE30BBFF2660BE1715A4589334C74C7
+SM2_GY = 0xBC3736A2F4F6779C59BDCEE36B692153D0A9877CC62A474002DF32E52139F0A0
+
+
+def _ec_add(P, Q):
+    """affine addition on y^2 = x^3 - 3x + b over GF(SM2_P); None is the point at infinity"""
+    if P is None:
+        return Q
+    if Q is None:
+        return P
+    (x1, y1), (x2, y2) = P, Q
+    if x1 == x2:
+        if (y1 + y2) % SM2_P == 0:
+            return None
+        l = (3 * x1 * x1 - 3) * pow(2 * y1, -1, SM2_P) % SM2_P
+    else:
+        l = (y2 - y1) * pow(x2 - x1, -1, SM2_P) % SM2_P
+    x3 = (l * l - x1 - x2) % SM2_P
+    return x3, (l * (x1 - x3) - y1) % SM2_P
+
+
+def sm2_base_mult(d):
+    """[d]G by double-and-add (the predicate's own arithmetic: no code of /repo, of the driver or of the model)"""
+    R, A = None, (SM2_GX, SM2_GY)
+    while d:
+        if d & 1:
+            R = _ec_add(R, A)
+        A = _ec_add(A, A)
+        d >>= 1
+    return R
+
+
+def _predicate_P(f, io):
+    """a signer loaded from a hand-built key file: the loaded key is (d, [d]G) and what it issues verifies under [d]G"""
+    if not io or io[0] in ("PANIC", "HANG"):
+        return False, "implementation " + (io[0] if io else "gave no result")
+    d = int(f[2], 16)
+    octets = int(f[3])
+    if not 0 < d < SM2_N or octets < 30 or octets > 34 or (octets < 32 and d >> (8 * octets)):
+        return True, ""                  # outside the documented domain (not generated)
+    if io[0] != "ok" or len(io) < 8:
+        return False, "valid SM2 key file (scalar in %d octets, loader %s) not usable: %s" % (octets, f[4], " ".join(io)[:200])
+    X, Y = sm2_base_mult(d)
+    lx, ly, ld, tx, ty = (int(v, 16) for v in io[1:6])
+    if (tx, ty) != (X, Y):
+        return False, "driver's reference point differs from [d]G computed by the check module"
+    if ld != d:
+        return False, "loaded private scalar differs from the one in the key file (scalar in %d octets)" % octets
+    if (lx, ly) != (X, Y):
+        return False, "loaded public key is not [d]G (scalar in %d octets, loader %s)" % (octets, f[4])
+    if io[6] != "111":
+        return False, "objects issued by the loaded signer do not verify under [d]G: certificate/request/CRL = %s" % io[6]
+    pt = cert_view(bytes.fromhex(io[7]))["point"]
+    if len(pt) != 65 or pt[0] != 4 or (int.from_bytes(pt[1:33], "big"), int.from_bytes(pt[33:], "big")) != (X, Y):
+        return False, "certificate issued for the loaded key carries a public key that is not [d]G"
+    return True, ""
+
+
+def name_view(der):
+    """the issuer and subject fields of a certificate, as the bytes that are in its DER"""
+    ident, cs, ce = _tlv(der, 0)
+    tbs = _children(der, cs, ce)[0]
+    ch = _children(der, tbs[1], tbs[2])
+    k = 1 if ch[0][0] == 0xa0 else 0
+    return der[ch[k + 1][2]:ch[k + 2][2]], der[ch[k + 3][2]:ch[k + 4][2]]
+
+
+def _predicate_Q(f, io):
+    """a certificate issued under a parent with a given subject encoding: issuer field == subject of the parent, byte for byte,
+    and Verify builds the chain"""
+    if not io or io[0] in ("PANIC", "HANG"):
+        return False, "implementation " + (io[0] if io else "gave no result")
+    if io[0] != "ok" or len(io) < 5:
+        return False, "certificate under a parent with a valid subject (%s) was not issued: %s" % (f[2], " ".join(io)[:200])
+    raw = bytes.fromhex(f[3])
+    ca_issuer, ca_subject = name_view(bytes.fromhex(io[2]))
+    if ca_subject != raw:
+        return False, "subject of the CA certificate is not the RawSubject of its template (%s)" % f[2]
+    ch_issuer, _ = name_view(bytes.fromhex(io[1]))
+    if ch_issuer != raw:
+        return False, ("issuer field of the issued certificate differs from the subject of its parent (%s, parent %s): %s vs %s"
+                       % (f[2], "parsed" if f[4] == "p" else "in memory", ch_issuer.hex(), raw.hex()))
+    if io[3] != "1":
+        return False, "Verify does not build the chain child -> parent (%s): %s" % (f[2], io[3])
+    if io[4] != "1":
+        return False, "the issued certificate does not verify under its parent (%s)" % f[2]
+    return True, ""
+
+
 def _predicate_Y(f, io):
     """a history of SM2 keys (public coordinates with leading zero bytes among them): every object issued so far verifies under
     its issuer, and under no other key used so far, at EVERY point of the history; public keys parse back"""
@@ -411,6 +511,10 @@ def _predicate(f, io):
         return _predicate_E(f, io)
     if f[0] == "Y":
         return _predicate_Y(f, io)
+    if f[0] == "P":
+        return _predicate_P(f, io)
+    if f[0] == "Q":
+        return _predicate_Q(f, io)
     if not io or io[0] in ("PANIC", "HANG"):
         return False, "implementation " + (io[0] if io else "gave no result")
     if io[0] != "ok" or len(io) < 11:
@@ -455,6 +559,10 @@ def _predicate(f, io):
 
 def _classify(f, io):
     """kind:signer:created|rejected[:crossfamily|:insecure][:noverify][:diff][:algsurvivor][:survivor]"""
+    if f[0] == "P":
+        return "P:%s:%s:%s" % (f[3], f[4], "ok" if io[:1] == ["ok"] and io[6:7] == ["111"] else "fail")
+    if f[0] == "Q":
+        return "Q:%s:%s:%s" % (f[2], f[4], "ok" if io[:1] == ["ok"] and io[3:5] == ["1", "1"] else "fail")
     if f[0] == "Y":
         return "Y:" + ("ok" if io[:1] == ["ok"] and io[3:4] == ["-"] else "fail")
     if f[0] == "E":
